@@ -547,6 +547,9 @@ func (change *sortableChange) Less(other *sortableChange) bool {
 		if change.hash[x] < other.hash[x] {
 			return true
 		}
+		if change.hash[x] > other.hash[x] {
+			return false
+		}
 	}
 	return false
 }
